@@ -3,7 +3,7 @@ import re
 import itertools
 from .common import *
 from cpv.graph import field_writers
-from .shared import plugin_chain_order
+from .shared import plugin_chain_order, plugin_chain, this_view, member_by_type
 from cpv.ceval import Evaluator, Unknown
 
 UNIT = "src/CppUTest/TestPlugin.cpp"
@@ -145,25 +145,33 @@ def check(ctx, run):
     run.analysed(ip)
     TPINL = {g.qn for g in prog.functions.values() if g.qn.startswith("TestPlugin::")}
     try:
-        ev = Evaluator(prog, ip, env={"firstPlugin_": 5000, ip.params[0]["name"]: 8000, "@8000.next_": 777, "@5000.next_": 6000})
+        NEXT, FIRST = member_by_type(prog, "TestPlugin", "TestPlugin *"), member_by_type(prog, "TestRegistry", "TestPlugin *")
+        cenv, _ = plugin_chain(prog, ["A", "B", "N"], addrs={"A": 5000, "B": 6000, "N": 8000}, null_addr=9000)
+        cenv["@8000." + NEXT] = 777      # (the plugin to install is not linked to anything yet)
+        cenv["@6000." + NEXT] = 9000
+        cenv.update({FIRST: 5000, ip.params[0]["name"]: 8000})
+        ev = Evaluator(prog, ip, env=cenv)
         ev.heap_mode = True
         ev.inline = TPINL
         ev.run_blocks(ip.entry, max_steps=300)
-        got = (ev.env.get("firstPlugin_"), ev.env.get("@8000.next_"), ev.env.get("@5000.next_"))
+        got = (ev.env.get(FIRST), ev.env.get("@8000." + NEXT), ev.env.get("@5000." + NEXT))
     except Unknown as u:
         got = "unknown: %s" % u
-    run.ob("R3", "installPlugin inserts at the head of the chain", ip.site, got == (8000, 5000, 6000), witness={"(first plugin, its next_, old head's next_)": got},
+    run.ob("R3", "installPlugin inserts at the head of the chain", ip.site, got == (8000, 5000, 6000), witness={"(first plugin, its successor, old head's successor)": got},
            what="" if got == (8000, 5000, 6000) else "the installed plugin does not become the first plugin with the old chain behind it")
     ap = prog.fn("TestPlugin::addPlugin")
     run.analysed(ap)
     try:
-        ev = Evaluator(prog, ap, env={"this": 8000, "next_": 777, ap.params[0]["name"]: 5000})
+        cenv, _ = plugin_chain(prog, ["N"], addrs={"N": 8000}, null_addr=9000)
+        env_ = this_view(cenv, 8000)
+        env_[ap.params[0]["name"]] = 5000
+        ev = Evaluator(prog, ap, env=env_)
         ev.heap_mode = True
         ev.run_blocks(ap.entry, max_steps=200)
-        got = (getattr(ev, "ret", None), ev.env.get("next_"))
+        got = (getattr(ev, "ret", None), ev.env.get(NEXT))
     except Unknown as u:
         got = "unknown: %s" % u
-    run.ob("R3", "addPlugin links the given chain behind this plugin and returns this", ap.site, got == (8000, 5000), witness={"(returns, next_)": got})
+    run.ob("R3", "addPlugin links the given chain behind this plugin and returns this", ap.site, got == (8000, 5000), witness={"(returns, successor)": got})
     for fn_, post in (("UtestShell::runOneTestInCurrentProcess", None),):
         f = prog.fn(fn_)
         cs = [render(f, c) for c in f.calls() if render(f, c).startswith("plugin->runAll")]
@@ -173,19 +181,15 @@ def check(ctx, run):
     CH = {"A": 5000, "B": 6000, "C": 7000, "NullPlugin": 9000}
 
     def chain3(names=("A", "B", "C", "NullPlugin")):
-        env = {}
-        for i_, nm in enumerate(names):
-            env["@%d.name_" % CH[nm]] = ("str", nm)
-            env["@%d.next_" % CH[nm]] = CH[names[i_ + 1]] if i_ + 1 < len(names) else 0
-            env["@%d.enabled_" % CH[nm]] = 1
-        env.update({"this": CH[names[0]], "name_": ("str", names[0]), "next_": env["@%d.next_" % CH[names[0]]], "enabled_": 1})
-        return env
+        real = [n_ for n_ in names if n_ != "NullPlugin"]
+        cenv, _ = plugin_chain(prog, real, addrs={n_: CH[n_] for n_ in real}, null_addr=CH["NullPlugin"])
+        return this_view(cenv, CH[names[0]])
     gp = prog.fn("TestPlugin::getPluginByName")
     run.analysed(gp)
     bad = None
     try:
         for names in (("A", "B", "C", "NullPlugin"), ("A", "NullPlugin"), ("NullPlugin",)):
-            for target in ("A", "B", "C", "NullPlugin", "none"):
+            for target in ("A", "B", "C", "null", "none"):      # (the terminator built by its own constructor is called "null")
                 env = chain3(names)
                 env[gp.params[0]["name"]] = ("str", target)
                 ev = Evaluator(prog, gp, env=env, calls=string_hooks())
@@ -194,7 +198,7 @@ def check(ctx, run):
                 ev.inline = TPINL
                 ev.run_blocks(gp.entry, max_steps=2000)
                 r = getattr(ev, "ret", None)
-                want = CH[target] if target in names else 0
+                want = CH["NullPlugin"] if target == "null" else (CH[target] if target in names else 0)
                 if r != want and bad is None:
                     bad = "chain %s, asking for %r: returns %s, expected %s" % (list(names), target, r, want)
     except Unknown as u:
@@ -239,18 +243,15 @@ def check(ctx, run):
     ADDR = {"A": 5000, "B": 6000, "C": 7000, "D": 7500, "E": 7800, "NullPlugin": 8000}
 
     def chain_env(names):
-        env = {}
-        for i_, nm in enumerate(names):
-            env["@%d.name_" % ADDR[nm]] = ("str", nm)
-            env["@%d.next_" % ADDR[nm]] = ADDR[names[i_ + 1]] if i_ + 1 < len(names) else 0
-            env["@%d.enabled_" % ADDR[nm]] = 1
-        return env
+        real = [n_ for n_ in names if n_ != "NullPlugin"]
+        cenv, _ = plugin_chain(prog, real, addrs={n_: ADDR[n_] for n_ in real}, null_addr=ADDR["NullPlugin"])
+        return cenv
 
     def walk(env, head):
         out, cur = [], head
         while cur and len(out) < 10:
             out.append([k for k, v in ADDR.items() if v == cur][0] if cur in ADDR.values() else cur)
-            cur = env.get("@%d.next_" % cur)
+            cur = env.get("@%d.%s" % (cur, NEXT))
         return out
     PINL = {g.qn for g in prog.functions.values() if g.qn.startswith("TestPlugin::") and g.name in ("removePluginByName", "getPluginByName", "getNext", "getName")}
     bad = None
@@ -258,7 +259,7 @@ def check(ctx, run):
         for names in (["A", "B", "C", "D", "E", "NullPlugin"], ["A", "B", "C", "NullPlugin"], ["A", "NullPlugin"], ["NullPlugin"]):
             for target in ("A", "B", "C", "D", "E", "none"):
                 env = chain_env(names)
-                env["firstPlugin_"] = ADDR[names[0]]
+                env[FIRST] = ADDR[names[0]]
                 env[rr.params[0]["name"]] = ("str", target)
                 ev = Evaluator(prog, rr, env=env, calls=string_hooks({"NullTestPlugin::instance": lambda *a_: ADDR["NullPlugin"]}))
                 ev.heap_mode = True
@@ -271,7 +272,7 @@ def check(ctx, run):
                         bad = bad or "chain %s, removing %r: the walk along next_ does not end (the chain has become cyclic)" % (names, target)
                         continue
                     raise
-                got = walk(ev.env, ev.env.get("firstPlugin_"))
+                got = walk(ev.env, ev.env.get(FIRST))
                 want = [x for x in names if x != target]
                 if got != want and bad is None:
                     bad = "chain %s, removing %r: the chain becomes %s, expected %s" % (names, target, got, want)
@@ -282,9 +283,9 @@ def check(ctx, run):
     bad = None
     try:
         for target in ("A", "B", "C"):
-            env = chain_env(["A", "B", "C", "NullPlugin"])
+            env = this_view(chain_env(["A", "B", "C", "NullPlugin"]), ADDR["A"])
             # the chain method on the head plugin: returns the removed node
-            env.update({"this": ADDR["A"], "next_": env["@5000.next_"], "name_": ("str", "A"), rm.params[0]["name"]: ("str", target)})
+            env[rm.params[0]["name"]] = ("str", target)
             ev = Evaluator(prog, rm, env=env, calls=string_hooks())
             ev.heap_mode = True
             ev.pass_object = True
@@ -298,5 +299,19 @@ def check(ctx, run):
         run.broke("C17.R5: TestPlugin::removePluginByName cannot be folded: %s" % u)
     run.ob("R5", "TestPlugin::removePluginByName returns the plugin it unlinked (NULL when none of its successors carries the name)", rm.site, bad is None, witness=bad or "3 cases", what=bad or "")
     gp = prog.fn("TestRegistry::getPluginByName")
-    rets = [render(gp, gp.node(n.get("value"))) for n in gp.walk() if n["k"] == "ReturnStmt"]
-    run.ob("R5", "the registry looks a plugin up from the head of the chain", gp.site, rets == ["firstPlugin_->getPluginByName(%s)" % gp.params[0]["name"]], witness=rets)
+    bad = None
+    try:
+        for target, want in (("A", ADDR["A"]), ("C", ADDR["C"]), ("none", 0)):
+            env = chain_env(["A", "B", "C", "NullPlugin"])
+            env[FIRST] = ADDR["A"]
+            env[gp.params[0]["name"]] = ("str", target)
+            ev = Evaluator(prog, gp, env=env, calls=string_hooks())
+            ev.heap_mode = True
+            ev.pass_object = True
+            ev.inline = TPINL
+            ev.run_blocks(gp.entry, max_steps=2000)
+            if getattr(ev, "ret", None) != want and bad is None:
+                bad = "asking the registry for %r returns %s, expected %s" % (target, getattr(ev, "ret", None), want)
+    except Unknown as u:
+        bad = "cannot be folded: %s" % u
+    run.ob("R5", "the registry looks a plugin up from the head of the chain", gp.site, bad is None, witness=bad or "3 lookups")
